@@ -69,6 +69,9 @@ let run_mode (m : mode) (input : string) : string =
     let prefix = bytes_of_hex ph in
     (match read_font_prefix prefix with
      | Err Eof -> "outside-model"   (* the parser ran past the prefix into the compressed stream *)
+     | Ok (_, rest) when rest <> [] && bh = "-" ->
+       (* misaligned stream and an empty block: the junk may well decompress to nothing *)
+       "outside-model"
      | _ ->
        out (fun (dir, tabs) ->
            let tabs = List.sort (fun (a, _) (b, _) -> compare (z_to_int a) (z_to_int b)) tabs in
